@@ -103,7 +103,7 @@ KEY_LEAF = L("d", I("k0"))
 CONTAINERS = [L("d", I("n0")), L("d", I("n1")), L("d", I("n1"), I("m")), L("d", I("l")),
               L("d", I("o")), L("e", A("sub"))]
 COMP = [(L("d", I("l")), IDX_LEAF), (L("d", I("n0")), KEY_LEAF)]
-FN_NAMES = ["add2", "scale", "sq", "hyp", "tot"]
+FN_NAMES = ["add2", "scale", "sq", "hyp", "tot", "kwsum", "sel"]
 ATTR_ITEM_LABELS = ("g",)
 
 
